@@ -997,6 +997,55 @@ func idleBehindDrainedPart(res *vkit.Result, reps int) {
 	}
 }
 
+// highRateOrder: parts with tens of thousands of requests per second for seconds (hundreds of
+// thousands of tokens — far more than the generated trees hold) drawn by one caller: the times it
+// is given never decrease, across part boundaries and into the finish time included.
+func highRateOrder(res *vkit.Result) {
+	shapes := []struct {
+		name  string
+		build func() core.Schedule
+	}{
+		{"[const 60000 rps 2s, once 1]", func() core.Schedule {
+			return schedule.NewComposite(schedule.NewConst(60000, 2*time.Second), schedule.NewOnce(1))
+		}},
+		{"const 60000 rps 1500ms", func() core.Schedule { return schedule.NewConst(60000, 1500*time.Millisecond) }},
+		{"step 15000…30000 by 15000, 20s", func() core.Schedule { return schedule.NewStep(15000, 30000, 15000, 20*time.Second) }},
+		{"[line 70000→10 rps 3s, const 7 rps 1s]", func() core.Schedule {
+			return schedule.NewComposite(schedule.NewLine(70000, 10, 3*time.Second), schedule.NewConst(7, time.Second))
+		}},
+	}
+	for _, sh := range shapes {
+		c := map[string]any{"tree": sh.name, "callers": 1}
+		s := sh.build()
+		t0 := time.Unix(1700000000, 0)
+		s.Start(t0)
+		var prev time.Time
+		n := 0
+		for {
+			t, ok := s.Next()
+			if t.Before(prev) {
+				what := fmt.Sprintf("token %d", n)
+				if !ok {
+					what = "the finish time"
+				}
+				res.Violate("C02/high-rate/time-decreased", fmt.Sprintf("%s is dated +%v, after the caller had already been given +%v", what, t.Sub(t0), prev.Sub(t0)), c)
+				break
+			}
+			prev = t
+			if !ok {
+				break
+			}
+			n++
+			if n > 5000000 {
+				res.Inconclusive(false, "high-rate profile %s did not end after 5e6 tokens", sh.name)
+				break
+			}
+		}
+		res.Count("high_rate_tokens_drawn", int64(n))
+		res.Eval(vkit.JSON(c), true)
+	}
+}
+
 func unlimitedFirstUse(res *vkit.Result, rounds int) {
 	for _, how := range []string{"first-next", "start"} {
 		c := map[string]any{"tree": "unlimited(1h)", "started_by": how, "pollers": 6}
@@ -1208,6 +1257,7 @@ func main() {
 	shortUnlimited(res, vkit.N(400, 8000))
 	unlimitedFirstUse(res, vkit.N(3000, 30000))
 	idleBehindDrainedPart(res, vkit.N(4, 40))
+	highRateOrder(res)
 	factoryProducts(res)
 	if res.Counter("hook_hits/next:after-runlock") == 0 || res.Counter("hook_hits/left:after-runlock") == 0 || res.Counter("controlled_interleavings") < 50 {
 		res.Inconclusive(true, "yield hook not reached or too few controlled interleavings (is the verif tag on?)")
